@@ -85,11 +85,74 @@ func Drain(sr *schema.StreamReader[M]) ([]M, error) {
 // and see the concatenation (concatI) of their input chunks.
 func nativeLambdaG[I, O any](f func(ctx context.Context, in I) (O, error), native string,
 	chunkO func(O) []O, concatI func([]I) I, produce func([]O) *schema.StreamReader[O]) *compose.Lambda {
+	return nativeLambdaMid(f, native, chunkO, concatI, produce, nil)
+}
+
+// MidFail: the node breaks in the middle of its stream. Its natively streaming forms (Stream,
+// Transform) return their reader, which delivers the first After chunks of f's output and then
+// the error item Err; its other native forms (Invoke, Collect) return Err at call time.
+type MidFail struct {
+	After int
+	Err   error
+}
+
+// brokenStream: the first `after` chunks, then an error item. The pipe holds everything that is
+// sent, so no goroutine is needed and nothing blocks when the reader is never drained.
+func brokenStream[O any](cs []O, after int, err error) *schema.StreamReader[O] {
+	if after > len(cs) {
+		after = len(cs)
+	}
+	sr, sw := schema.Pipe[O](after + 1)
+	for _, c := range cs[:after] {
+		sw.Send(c, nil)
+	}
+	var z O
+	sw.Send(z, err)
+	sw.Close()
+	return sr
+}
+
+func nativeLambdaMid[I, O any](f func(ctx context.Context, in I) (O, error), native string,
+	chunkO func(O) []O, concatI func([]I) I, produce func([]O) *schema.StreamReader[O], mid *MidFail) *compose.Lambda {
+	if mid != nil {
+		whole := f
+		failing := func(ctx context.Context, in I) (O, error) {
+			var z O
+			if _, err := whole(ctx, in); err != nil {
+				return z, err
+			}
+			return z, mid.Err
+		}
+		broken := func(ctx context.Context, in I) (*schema.StreamReader[O], error) {
+			o, err := whole(ctx, in)
+			if err != nil {
+				return nil, err
+			}
+			return brokenStream(chunkO(o), mid.After, mid.Err), nil
+		}
+		return nativeLambdaForms(failing, native, concatI, broken)
+	}
 	if native == "" || native == "i" {
 		return compose.InvokableLambda(f)
 	}
 	if produce == nil {
 		produce = func(cs []O) *schema.StreamReader[O] { return schema.StreamReaderFromArray(cs) }
+	}
+	return nativeLambdaForms(f, native, concatI, func(ctx context.Context, in I) (*schema.StreamReader[O], error) {
+		o, err := f(ctx, in)
+		if err != nil {
+			return nil, err
+		}
+		return produce(chunkO(o)), nil
+	})
+}
+
+// nativeLambdaForms: f is the function of the non-streaming native forms (Invoke, Collect),
+// fstream the one of the streaming forms (Stream, Transform).
+func nativeLambdaForms[I, O any](f func(ctx context.Context, in I) (O, error), native string,
+	concatI func([]I) I, fstream func(ctx context.Context, in I) (*schema.StreamReader[O], error)) *compose.Lambda {
+	if native == "" {
+		native = "i"
 	}
 	var fi compose.Invoke[I, O, lambdaOpt]
 	var fs compose.Stream[I, O, lambdaOpt]
@@ -120,11 +183,7 @@ func nativeLambdaG[I, O any](f func(ctx context.Context, in I) (O, error), nativ
 	}
 	if strings.Contains(native, "s") {
 		fs = func(ctx context.Context, in I, _ ...lambdaOpt) (*schema.StreamReader[O], error) {
-			o, err := f(ctx, in)
-			if err != nil {
-				return nil, err
-			}
-			return produce(chunkO(o)), nil
+			return fstream(ctx, in)
 		}
 	}
 	if strings.Contains(native, "c") {
@@ -143,11 +202,7 @@ func nativeLambdaG[I, O any](f func(ctx context.Context, in I) (O, error), nativ
 			if err != nil {
 				return nil, err
 			}
-			o, err := f(ctx, v)
-			if err != nil {
-				return nil, err
-			}
-			return produce(chunkO(o)), nil
+			return fstream(ctx, v)
 		}
 	}
 	l, err := compose.AnyLambda(fi, fs, fc, ft)
@@ -159,11 +214,28 @@ func nativeLambdaG[I, O any](f func(ctx context.Context, in I) (O, error), nativ
 
 func concatStrs(cs []string) string { return strings.Join(cs, "") }
 
+// midOf: the mid-stream failure of a fail node with Body.After (nil for every other node).
+func midOf(n Node) *MidFail {
+	if n.Body.Op == "fail" && n.Body.After != nil {
+		return &MidFail{After: *n.Body.After, Err: &UserErr{ID: n.Body.ID}}
+	}
+	return nil
+}
+
 // addKeyedLambda adds the node's lambda with the Go types its input/output keys imply:
-// no keys: M → M; OutKey: M → string (+WithOutputKey); InKey: string → M (+WithInputKey); both: string → string.
+// no keys: M → M; OutKey: M → string (+WithOutputKey); InKey: string → M (+WithInputKey); both: string → string;
+// SIn: like InKey, but without the option (the predecessor, a pass node with that input key, hands over the string).
 func addKeyedLambda(cg *compose.Graph[M, M], n Node, f func(ctx context.Context, in M) (M, error),
 	produce func([]M) *schema.StreamReader[M]) error {
+	l, opts := keyedLambda(n, f, produce)
+	return cg.AddLambdaNode(n.Key, l, opts...)
+}
+
+// keyedLambda: the lambda of a tag / fail node and the add-node options its keys need.
+func keyedLambda(n Node, f func(ctx context.Context, in M) (M, error),
+	produce func([]M) *schema.StreamReader[M]) (*compose.Lambda, []compose.GraphAddNodeOpt) {
 	pat := n.Chunks
+	mid := midOf(n)
 	chunkM := func(o M) []M { return ChunkMap(pat, o) }
 	chunkS := func(o string) []string { return ChunkStr(pat, o) }
 	// the string a keyed lambda returns: the single value of f's output map
@@ -184,17 +256,21 @@ func addKeyedLambda(cg *compose.Graph[M, M], n Node, f func(ctx context.Context,
 			return schema.StreamReaderWithConvert(produce(ms), func(m M) (string, error) { return fmt.Sprint(m["_"]), nil })
 		}
 	}
+	var opts []compose.GraphAddNodeOpt
+	strKey := n.InKey // the key under which the model keeps the lambda's string input
+	if n.InKey != "" {
+		opts = append(opts, compose.WithInputKey(n.InKey))
+	} else if n.SIn != "" {
+		strKey = n.SIn
+	}
+	if n.OutKey != "" {
+		opts = append(opts, compose.WithOutputKey(n.OutKey))
+	}
+	fs := func(ctx context.Context, in string) (M, error) { return f(ctx, M{strKey: in}) }
 	switch {
-	case n.InKey == "" && n.OutKey == "":
-		return cg.AddLambdaNode(n.Key, nativeLambdaG(f, n.Native, chunkM, ConcatChunks, produce))
-	case n.InKey == "" && n.OutKey != "" && n.OutTyped:
-		g := func(ctx context.Context, in M) (map[string]string, error) {
-			o, err := f(ctx, in)
-			if err != nil {
-				return nil, err
-			}
-			return map[string]string{"v": val(o)}, nil
-		}
+	case strKey == "" && n.OutKey == "":
+		return nativeLambdaMid(f, n.Native, chunkM, ConcatChunks, produce, mid), opts
+	case n.OutKey != "" && n.OutTyped:
 		chunkT := func(o map[string]string) []map[string]string {
 			var cs []map[string]string
 			for _, piece := range ChunkStr(pat, o["v"]) {
@@ -214,8 +290,25 @@ func addKeyedLambda(cg *compose.Graph[M, M], n Node, f func(ctx context.Context,
 				})
 			}
 		}
-		return cg.AddLambdaNode(n.Key, nativeLambdaG(g, n.Native, chunkT, ConcatChunks, produceT), compose.WithOutputKey(n.OutKey))
-	case n.InKey == "" && n.OutKey != "":
+		if strKey == "" {
+			g := func(ctx context.Context, in M) (map[string]string, error) {
+				o, err := f(ctx, in)
+				if err != nil {
+					return nil, err
+				}
+				return map[string]string{"v": val(o)}, nil
+			}
+			return nativeLambdaMid(g, n.Native, chunkT, ConcatChunks, produceT, mid), opts
+		}
+		g := func(ctx context.Context, in string) (map[string]string, error) {
+			o, err := fs(ctx, in)
+			if err != nil {
+				return nil, err
+			}
+			return map[string]string{"v": val(o)}, nil
+		}
+		return nativeLambdaMid(g, n.Native, chunkT, concatStrs, produceT, mid), opts
+	case strKey == "" && n.OutKey != "":
 		g := func(ctx context.Context, in M) (string, error) {
 			o, err := f(ctx, in)
 			if err != nil {
@@ -223,20 +316,95 @@ func addKeyedLambda(cg *compose.Graph[M, M], n Node, f func(ctx context.Context,
 			}
 			return val(o), nil
 		}
-		return cg.AddLambdaNode(n.Key, nativeLambdaG(g, n.Native, chunkS, ConcatChunks, produceS), compose.WithOutputKey(n.OutKey))
-	case n.InKey != "" && n.OutKey == "":
-		g := func(ctx context.Context, in string) (M, error) { return f(ctx, M{n.InKey: in}) }
-		return cg.AddLambdaNode(n.Key, nativeLambdaG(g, n.Native, chunkM, concatStrs, produce), compose.WithInputKey(n.InKey))
+		return nativeLambdaMid(g, n.Native, chunkS, ConcatChunks, produceS, mid), opts
+	case strKey != "" && n.OutKey == "":
+		return nativeLambdaMid(fs, n.Native, chunkM, concatStrs, produce, mid), opts
 	default:
 		g := func(ctx context.Context, in string) (string, error) {
-			o, err := f(ctx, M{n.InKey: in})
+			o, err := fs(ctx, in)
 			if err != nil {
 				return "", err
 			}
 			return val(o), nil
 		}
-		return cg.AddLambdaNode(n.Key, nativeLambdaG(g, n.Native, chunkS, concatStrs, produceS), compose.WithInputKey(n.InKey), compose.WithOutputKey(n.OutKey))
+		return nativeLambdaMid(g, n.Native, chunkS, concatStrs, produceS, mid), opts
 	}
+}
+
+// BuildChain builds a case with Stages through the compose.NewChain API: a stage of one node is
+// AppendLambda / AppendPassthrough / AppendGraph (with the node's key options), a stage of several
+// nodes is AppendParallel, each member added under its output key. The case's Edges must be the
+// edges of that chain (they are what the model runs); anything else is a harness error.
+func BuildChain(g *Graph, bo *BuildOpts) (*compose.Chain[M, M], error) {
+	byKey := map[string]Node{}
+	for _, n := range g.Nodes {
+		byKey[n.Key] = n
+	}
+	want := map[[2]string]bool{}
+	prev := []string{"start"}
+	seen := 0
+	for _, st := range g.Stages {
+		for _, k := range st {
+			if _, ok := byKey[k]; !ok {
+				return nil, fmt.Errorf("harness: stage names unknown node %s", k)
+			}
+			seen++
+			for _, p := range prev {
+				want[[2]string{p, k}] = true
+			}
+		}
+		prev = st
+	}
+	for _, p := range prev {
+		want[[2]string{p, "end"}] = true
+	}
+	if seen != len(g.Nodes) || len(want) != len(g.Edges) || len(g.Branches) != 0 || g.Mode != "pregel" {
+		return nil, fmt.Errorf("harness: case is not the chain its stages describe")
+	}
+	for _, e := range g.Edges {
+		if !want[e] {
+			return nil, fmt.Errorf("harness: edge %v is not a chain edge", e)
+		}
+	}
+	ch := compose.NewChain[M, M]()
+	for _, st := range g.Stages {
+		if len(st) == 1 {
+			n := byKey[st[0]]
+			key := compose.WithNodeKey(n.Key)
+			switch n.Body.Op {
+			case "pass":
+				if n.InKey != "" {
+					ch.AppendPassthrough(key, compose.WithInputKey(n.InKey))
+				} else {
+					ch.AppendPassthrough(key)
+				}
+			case "graph":
+				sub, err := Build(n.Body.G, n.Key, bo)
+				if err != nil {
+					return nil, err
+				}
+				ch.AppendGraph(sub, key, compose.WithGraphCompileOptions(CompileOpts(n.Body.G)...))
+			default:
+				f, produce := nodeFunc(n, n.Key, bo)
+				l, opts := keyedLambda(n, f, produce)
+				ch.AppendLambda(l, append(opts, key)...)
+			}
+			continue
+		}
+		par := compose.NewParallel()
+		for _, k := range st {
+			n := byKey[k]
+			if n.OutKey == "" || (n.Body.Op != "tag" && n.Body.Op != "fail") {
+				return nil, fmt.Errorf("harness: parallel member %s needs a lambda body and an output key", k)
+			}
+			f, produce := nodeFunc(n, n.Key, bo)
+			outKey := n.OutKey
+			l, opts := keyedLambda(n, f, produce) // opts carry WithOutputKey(outKey) again: same key
+			par.AddLambda(outKey, l, append(opts, compose.WithNodeKey(n.Key))...)
+		}
+		ch.AppendParallel(par)
+	}
+	return ch, nil
 }
 
 // ParadigmResult is the outcome of one calling paradigm, canonicalised.
@@ -248,14 +416,24 @@ type ParadigmResult struct {
 
 // RunParadigms compiles the case once and calls Invoke, Stream, Collect, Transform.
 func RunParadigms(g *Graph, input string, inChunks []int, bo *BuildOpts) (map[string]*ParadigmResult, string) {
-	cg, err := Build(g, "", bo)
-	if err != nil {
-		return nil, "build-error: " + err.Error()
-	}
 	ctx := context.Background()
-	r, err := cg.Compile(ctx, CompileOpts(g)...)
-	if err != nil {
-		return nil, "compile-error: " + err.Error()
+	var r compose.Runnable[M, M]
+	if len(g.Stages) > 0 {
+		ch, err := BuildChain(g, bo)
+		if err != nil {
+			return nil, "build-error: " + err.Error()
+		}
+		if r, err = ch.Compile(ctx, CompileOpts(g)...); err != nil {
+			return nil, "compile-error: " + err.Error()
+		}
+	} else {
+		cg, err := Build(g, "", bo)
+		if err != nil {
+			return nil, "build-error: " + err.Error()
+		}
+		if r, err = cg.Compile(ctx, CompileOpts(g)...); err != nil {
+			return nil, "compile-error: " + err.Error()
+		}
 	}
 	x := M{"in": input}
 	out := map[string]*ParadigmResult{}
@@ -343,7 +521,7 @@ func AssignKeys(r *vh.Rand, g *Graph) {
 	outKeyOf := map[string]string{}
 	for i := range g.Nodes {
 		n := &g.Nodes[i]
-		if n.Body.Op == "tag" && r.Chance(30) {
+		if n.Keyable() && r.Chance(30) {
 			n.OutKey = fmt.Sprintf("k%d", r.Intn(4))
 		}
 		if n.OutKey != "" {
@@ -357,7 +535,7 @@ func AssignKeys(r *vh.Rand, g *Graph) {
 	}
 	for i := range g.Nodes {
 		n := &g.Nodes[i]
-		if n.Body.Op != "tag" || !r.Chance(25) {
+		if !n.Keyable() || !r.Chance(25) {
 			continue
 		}
 		var preds []string
@@ -365,7 +543,7 @@ func AssignKeys(r *vh.Rand, g *Graph) {
 			if e[1] == n.Key {
 				if e[0] == "start" {
 					preds = append(preds, "in")
-				} else if g.nodeOp(e[0]) == "tag" {
+				} else if g.keyable(e[0]) {
 					preds = append(preds, outKeyOf[e[0]])
 				}
 			}
@@ -392,6 +570,21 @@ func AssignKeys(r *vh.Rand, g *Graph) {
 			n.OutTyped = true
 		}
 	}
+}
+
+// Keyable: a lambda whose output is a single-key map {key: string} (a tag body, or a fail body
+// that streams such chunks before it breaks): it can carry an output key / an input key.
+func (n *Node) Keyable() bool {
+	return n.Body.Op == "tag" || (n.Body.Op == "fail" && n.Body.After != nil)
+}
+
+func (g *Graph) keyable(key string) bool {
+	for i := range g.Nodes {
+		if g.Nodes[i].Key == key {
+			return g.Nodes[i].Keyable()
+		}
+	}
+	return false
 }
 
 func (g *Graph) nodeOp(key string) string {
